@@ -154,7 +154,22 @@ fn key_for(property: &str, inv: &str, orig_inv: &str, f: &Failure, out: &Outcome
                 crate::node::NodeKind::Api { calls } => calls.len() > 1 || calls.iter().any(|c| c.entry != "process_file"),
                 crate::node::NodeKind::Cli { args } => args.iter().filter(|a| a.ends_with(".lalrpop")).count() > 1,
             };
-            let varies = if node.hashseed != 0 { "hash-seed" } else if multi { "batch-or-order" } else if node.leak > 0 { "address-shift" } else { "name-or-env" };
+            let extra_env = node.env.iter().any(|(k, _)| k != "OUT_DIR" && !k.starts_with("CARGO_FEATURE_"));
+            let varies = if node.hashseed != 0 {
+                "hash-seed"
+            } else if node.clock.is_some() {
+                "clock"
+            } else if node.pid.is_some() {
+                "pid"
+            } else if extra_env {
+                "environment"
+            } else if multi {
+                "batch-or-order"
+            } else if node.leak > 0 {
+                "address-shift"
+            } else {
+                "file-name-or-directory"
+            };
             format!("{inv}|varies={varies}|text={}|what={}|msg={}", g("text"), orig_inv, g("msg"))
         }
         "C21" => {
@@ -248,5 +263,14 @@ pub fn run_ops(ctx: &Ctx, sc: &Scenario, reset: bool) -> Outcome {
         f.write_str(l);
     }
     out.log_digest = f.finish();
+    if !keep_log() {
+        // tens of thousands of scenarios are held at once in the thorough tiers
+        out.log = Vec::new();
+    }
     out
+}
+
+fn keep_log() -> bool {
+    static KEEP: std::sync::OnceLock<bool> = std::sync::OnceLock::new();
+    *KEEP.get_or_init(|| std::env::var("VERIF_KEEP_LOG").is_ok() || std::env::var("VERIF_VERBOSE").is_ok())
 }
